@@ -110,6 +110,11 @@ def ladder_shapes(tier):
     for n in (16, 17, 255, 256, 257, 1000):
         sh.append((n, n))
     sh += [(257, 3), (3, 257), (256, 17), (17, 256), (1000, 2), (2, 1000), (255, 257), (257, 255), (16, 1000)]
+    # dense range: every shape up to 12 x 12 (24 x 24 thorough) - all cells of these grids are queried
+    dmax = 12 if tier == "quick" else 24
+    have = set(sh)
+    sh += [(r, c) for r in range(1, dmax + 1) for c in range(1, dmax + 1)
+           if (r, c) not in have and not (r in sizes(tier) and c in sizes(tier))]
     if tier != "quick":
         for n in (7, 8, 9, 31, 32, 33, 63, 64, 65, 100, 127, 128, 129, 500, 511, 512, 513, 1001, 1023, 1024, 1025,
                   4095, 4096, 4097, 10001, 65535, 65536, 65537):
